@@ -20,6 +20,8 @@ import Restful.Lemmas.TieRequest
 import Restful.Lemmas.TieImpMatch
 import Restful.Lemmas.TieImpCurlyTok
 import Restful.Lemmas.TieImpPath
+import Restful.Lemmas.TieImpMedia
+import Restful.Lemmas.TieImpTemplate
 namespace Restful
 namespace Props
 variable (E : ReEnv)
@@ -428,3 +430,6 @@ end Restful
 -- also: Restful.TieImp.T2.regular_matches
 -- also: Restful.TieImp.T2.tokenize_path
 -- also: Restful.TieImp.T2.concat_path
+-- also: Restful.TieImp.T5.matches_accept
+-- also: Restful.TieImp.T5.matches_content_type
+-- also: Restful.TieImp.template_to_regex
